@@ -433,6 +433,21 @@ func genC01(e *emitter, r *rng, thorough bool) {
 }
 
 func genC05(e *emitter, r *rng, thorough bool) {
+	// a valid encoding followed by 256, 512 or 65536 more bytes: the LENGTH must decide, not the length modulo 2^8 / 2^16
+	{
+		g := mulG(big.NewInt(424243))
+		pk := pubOf(g.x, g.y)
+		for _, enc := range [][]byte{pk.SerialiseCompressed(), pk.SerialiseUncompressed(), pk.SerialiseHybrid()} {
+			for _, extra := range []int{255, 256, 257, 512, 65536} {
+				e.emit("parse.len-mod-2^k", "parsepub "+hx(append(append([]byte{}, enc...), r.bytes(extra)...)))
+				e.emit("parse.len-mod-2^k.zeros", "parsepub "+hx(append(append([]byte{}, enc...), make([]byte, extra)...)))
+				if len(enc) == 65 { // 04 || X || 00^extra || Y
+					x := append(append(append([]byte{}, enc[:33]...), make([]byte, extra)...), enc[33:]...)
+					e.emit("parse.len-mod-2^k.inner", "parsepub "+hx(x))
+				}
+			}
+		}
+	}
 	nr := 8
 	if thorough {
 		nr = 40
